@@ -48,8 +48,9 @@ class Unit(Translator):
             if len(c2) == 1: return c2[0]
         return cands[0] if len(cands) == 1 else None
 
-    def decl_by_name(self, name, P, obj, is_arrow):
-        """declared-only method looked up by (class, name) when node ids of two dumps do not line up"""
+    def decl_by_name(self, name, P, obj, is_arrow, call=None, nargs=None):
+        """declared-only method looked up by (class, name) when node ids of two dumps do not line up; overloads and
+        instantiations of member templates are told apart by arity and by the type of the call expression"""
         ot = P.ty(obj)
         if is_arrow and ot.kind == 'ptr': ot = ot.to
         ot = ot.strip_ref()
@@ -59,11 +60,31 @@ class Unit(Translator):
             for d in self.decl.values():
                 if d.get('kind') == 'CXXMethodDecl' and d.get('name'):
                     par = self.parent.get(d['id'])
+                    if par is not None and par.get('kind') == 'FunctionTemplateDecl':
+                        par = self.parent.get(par['id'])       # instantiation / pattern of a member template
                     q = self.qname_of.get(par['id']) if par else None
                     if q: idx.setdefault((q, d['name']), []).append(d)
             self._method_decl_index = idx
         c = self._method_decl_index.get((ot.name, name), [])
+        if len(c) > 1 and nargs is not None:
+            c = [d for d in c if len(self.fn_params(d)) == nargs] or c
+        if len(c) > 1 and call is not None:
+            rt = call.get('type', {}).get('qualType', '')
+            def ret_of(d):
+                m = re.match(r"^(.*?)\s*\(", d.get('type', {}).get('qualType', ''))
+                return m.group(1).strip() if m else ''
+            norm = lambda x: x.replace('const ', '').replace(' ', '')
+            c2 = [d for d in c if norm(ret_of(d)) == norm(rt) or norm(ret_of(d)).endswith('::' + norm(rt)) or norm(rt).endswith('::' + norm(ret_of(d)))]
+            if c2: c = c2
+            # several instantiations with the same signature (is<T>()): keep the first, the name gets a suffix below
+            sigs = {d.get('type', {}).get('qualType') for d in c}
+            if len(sigs) == 1: c = c[:1]
         return c[0] if len(c) == 1 else None
+
+    def _file_text(self, path):
+        c = self.__dict__.setdefault('_file_text_cache', {})
+        if path not in c: c[path] = open(path, errors='replace').read()
+        return c[path]
 
     def resolve_fn(self, fid):
         seen = 0
@@ -145,12 +166,36 @@ class Unit(Translator):
             return self._wrap_ret(callee, '%s(%s)' % (cn, ', '.join(a)))
         md = self.decl.get(mid) if mid else None
         if callee is None and md is None and mid:
-            md = self.decl_by_name(mexpr['name'], P, obj, is_arrow)
+            md = self.decl_by_name(mexpr['name'], P, obj, is_arrow, call=n, nargs=len(args))
         if callee is None and md is not None and md.get('kind') == 'CXXMethodDecl' and self.is_translatable(md):
             # declared-only method: pure virtual (bodiless dispatcher) or defined in another translation unit (extern);
             # either way a bodiless function that must get a contract from the spec
             q = self.fn_qname(md)
             disp = ('dispatch_' if (md.get('virtual') or md.get('pure')) else 'extern_') + sanitize(short_ns(q))
+            par = self.parent.get(md['id'])
+            if par is not None and par.get('kind') == 'FunctionTemplateDecl':
+                # a member function template whose instantiation is not in the dump (e.g. value::data<T>(), value::is<T>()):
+                # one bodiless function per instantiation, typed after this call expression and named after the explicit
+                # template arguments as written at the call site (read from the source range of the call)
+                rt = n.get('type', {}).get('qualType', '')
+                m_ = re.match(r"^(.*?)\s*\((.*)\)(\s*const)?\s*$", md['type']['qualType'])
+                targs = None
+                try:
+                    f = self.srcinfo.get(P.cname, (None,))[0]
+                    rg = n.get('range', {})
+                    if f and 'offset' in rg.get('begin', {}) and 'offset' in rg.get('end', {}):
+                        txt = self._file_text(f)[rg['begin']['offset']:rg['end']['offset'] + rg['end'].get('tokLen', 1)]
+                        mm = re.search(r"\b%s\s*<(.*)>\s*\([^()]*\)$" % re.escape(mexpr['name']), txt, re.S)
+                        if mm: targs = mm.group(1)
+                except Exception:
+                    targs = None
+                if not (rt and m_ and targs):
+                    raise Unsupported('%s: call of member template %s: instantiation not in the dump and template arguments not found at the call site' % (P.cname, q))
+                ot1 = P.ty(obj)
+                if is_arrow and ot1.kind == 'ptr': ot1 = ot1.to
+                ot1 = ot1.strip_ref()
+                disp = 'extern_' + sanitize(short_ns(ot1.name + '::' + mexpr['name'])) + '__' + sanitize(targs)
+                md = dict(md); md['type'] = {'qualType': '%s (%s)%s' % (rt, m_.group(2), m_.group(3) or '')}; md['_class_q'] = ot1.name
             self.virtual_dispatch[disp] = md
             self.proto_only[disp] = md
             this = P.ex(obj) if is_arrow else P.addr(obj)
@@ -200,6 +245,14 @@ class Unit(Translator):
             P.note_throw() if self.opts.get('all_calls_may_throw') else None
             return '((%s (*)(%s))(%s.fn))(%s.env%s)' % (ret, ', '.join(ptypes), P.paren(f), P.paren(f), ''.join(', ' + v for v in avals))
         callee = self.resolve_fn(r['id'])
+        if callee is None and args and r.get('name', '').startswith('operator'):
+            # node ids of two dumps do not line up: member operator looked up by (class, name, arity, constness)
+            try:
+                ot0 = P.ty(args[0]).strip_ref()
+                if ot0.kind == 'named' and self.category(ot0) == 'record':
+                    callee = self.resolve_by_name(r['name'], class_q=ot0.name, nargs=len(args) - 1, want_const=bool(ot0.const))
+            except Exception:
+                callee = None
         if callee is not None and callee.get('isImplicit') and r.get('name') == 'operator=' and self.category(P.ty(args[0])) == 'record':
             q = P.ty(args[0]).strip_ref().name
             if not self.record_trivially_copyable(q):
